@@ -9,7 +9,9 @@ EXPLANATION = (
     "PANIC: the call graph of the crate (MIR; closures, function references, portfolio constants, lazy statics; unresolved trait calls go to "
     "every impl; every impl of a foreign trait such as Display/FromStr/From is a root besides main) is searched for panic sites in anthem's own "
     "bodies: core::panicking calls (panic!/unreachable!/assert!), unwrap/expect, Index on Vec/slice/maps, MIR overflow / bounds / division "
-    "asserts, abs. Every reachable site must be discharged: PANIC-EOI (every parser's entry rule is `_{ X ~ EOI }` with X the rule its "
+    "asserts, abs, and library calls that panic by contract (zip_eq, swap_remove, split_off, Vec::remove, split_at, exactly_one). An overflow "
+    "assertion on a sum of Vec / slice lengths and small literals is discharged structurally (a length is at most isize::MAX / element size). "
+    "Every other reachable site must be discharged: PANIC-EOI (every parser's entry rule is `_{ X ~ EOI }` with X the rule its "
     "translate_pair expects - discharges the whole-input assertion and the pair bookkeeping of Parser::parse); PANIC-GCOV (all 43 translate_pair "
     "functions are abstractly interpreted over every child-pair sequence the grammar can produce for the rules they can be entered with: "
     "report_unexpected_pair / report_missing_pair / unwrap on an absent pair / Pratt parser misuse are unreachable); PANIC-CONSTARG (unreachable! "
